@@ -49,6 +49,68 @@ func HiCoord(t *tape.Tape) float32 {
 	return float32(math.Ldexp(float64(m), e))
 }
 
+// OffCoord draws a coordinate that is NOT on the lattice: the codec must
+// round it, and the oracles that see such values compare with the format's
+// quantisation as tolerance. Half of the draws sit on the edges where a
+// number changes its encoded form: just below +-128 (the end of the 2-byte
+// form), around +-64 (the end of the 1-byte form), a hair off a multiple of
+// 1/64, exactly between two multiples (ties), and the one or two floats just
+// below a power of two (all fraction bits set, where rounding carries).
+func OffCoord(t *tape.Tape) float32 {
+	next := func(f float32, up bool) float32 {
+		if up {
+			return math.Nextafter32(f, float32(math.Inf(1)))
+		}
+		return math.Nextafter32(f, float32(math.Inf(-1)))
+	}
+	switch t.Pick(4, 3, 3, 3, 3, 4) {
+	case 0:
+		v := []float32{128, -128, 64, -64, 127.9921875, 127.99609375, -127.9921875, 63.9921875}[t.Intn(8)]
+		switch t.Intn(4) {
+		case 0:
+			return next(v, false)
+		case 1:
+			return next(v, true)
+		case 2:
+			return next(next(v, false), false)
+		}
+		return v
+	case 1:
+		v := float32(t.Range(-8192, 8191)) / 64
+		return next(v, t.Bool())
+	case 2:
+		return float32(t.Range(-8192, 8191))/64 + 1.0/128
+	case 3:
+		e := t.Range(-4, 11)
+		v := float32(math.Ldexp(1, e))
+		v = next(v, false)
+		if t.Bool() {
+			v = next(v, false)
+		}
+		if t.Bool() {
+			v = -v
+		}
+		return v
+	case 4:
+		return float32(t.Range(-(1<<23)+1, (1<<23)-1)) / float32(int(1)<<uint(t.Range(9, 20)))
+	default:
+		// any float in about [-140, 140]
+		return (float32(t.Intn(1<<24))/(1<<24) - 0.5) * 280
+	}
+}
+
+// OffReal draws an off-lattice register/LOD number.
+func OffReal(t *tape.Tape) float32 {
+	switch t.Pick(2, 2, 1) {
+	case 0:
+		return OffCoord(t)
+	case 1:
+		return float32(t.Intn(1<<24)) / (1 << 24) // [0,1) with a full mantissa
+	default:
+		return float32(t.Intn(1<<20)) * 1.1
+	}
+}
+
 // Angle draws an arc rotation in [0,1) as j/128.
 func Angle(t *tape.Tape) float32 { return float32(t.Intn(128)) / 128 }
 
@@ -204,6 +266,7 @@ type GenCfg struct {
 	NoReset    bool // never start with Reset (zero-value histories)
 	ForceReset bool // always start with Reset
 	LongRuns   int  // weight (out of ~90) of runs of 37..300 identical drawing calls
+	OffLattice bool // coordinates off the lattice (the oracle must then allow the format's quantisation); absolute, non-smooth, non-arc verbs only
 	WildStops  bool // gradient stops in any order (C18: the caller's slice must not be touched whatever it holds)
 	ReadFirst  bool // bias towards reading state before writing it (C17's program B)
 	Dirty      bool // bias towards dirtying all state (C17's program A)
@@ -222,6 +285,9 @@ type gen struct {
 func (g *gen) emit(o Op) { g.ops = append(g.ops, o) }
 
 func (g *gen) coord() float32 {
+	if g.cfg.OffLattice && g.t.Chance(2, 3) {
+		return OffCoord(g.t)
+	}
 	if g.hires {
 		return HiCoord(g.t)
 	}
@@ -329,13 +395,18 @@ func (g *gen) path() {
 	t := g.t
 	g.emit(Op{K: KStartPath, U: g.adj(), F: [6]float32{g.coord(), g.coord()}})
 	nRuns := t.Range(0, 4)
-	if g.cfg.ReadFirst && t.Chance(2, 3) {
+	if g.cfg.ReadFirst && !g.cfg.OffLattice && t.Chance(2, 3) {
 		// smooth and relative verbs first: they read smooth-curve memory and the pen
 		k := []Kind{KRelSmoothQuadTo, KAbsSmoothQuadTo, KRelSmoothCubeTo, KAbsSmoothCubeTo, KRelLineTo, KRelArcTo}[t.Intn(6)]
 		g.emit(g.drawOp(k))
 	}
 	for r := 0; r < nRuns; r++ {
 		k := drawKinds[t.Intn(len(drawKinds))]
+		if g.cfg.OffLattice {
+			// independent absolute coordinates only: the error of each stays
+			// within one quantum instead of accumulating along the path
+			k = []Kind{KAbsLineTo, KAbsHLineTo, KAbsVLineTo, KAbsQuadTo, KAbsCubeTo, KClosePathAbsMoveTo}[t.Intn(6)]
+		}
 		n := 1
 		switch t.Pick(50, 30, 10, g.cfg.LongRuns) {
 		case 1:
